@@ -1,7 +1,7 @@
 (** C11 — Rewrites leave no orphans and references follow.
     Model: Model/RepoV.v (lib/src/repo.rs rebase_descendants_with_options and helpers,
     lib/src/rewrite.rs, lib/src/refs.rs, lib/src/commit_builder.rs). *)
-From Verif Require Import Base.Prelude Base.DagV Model.Merge Model.RepoV Model.C11 Proofs.C10 Proofs.C11 Proofs.C11Loop Proofs.C11View Proofs.C11Follow Proofs.C11Order.
+From Verif Require Import Base.Prelude Base.DagV Model.Merge Model.RepoV Model.C11 Proofs.C10 Proofs.C11 Proofs.C11Loop Proofs.C11View Proofs.C11Follow Proofs.C11Order Proofs.C10Rebase.
 
 (** rewritten_ids_with (new_parents is the instance that skips divergent records) never runs out
     of the stated fuel, whatever the mapping (cyclic or not): every key is expanded once. *)
@@ -185,6 +185,14 @@ Proof.
   intros order EO. exact (order_commits_valid s0 o rank Hr order EO).
 Qed.
 
+(** The state invariant [J] that the theorems above assume holds in every state reachable from the
+    empty repository by the basic mutations of C10 and the record operations (rewrite_commit with
+    or without new parents, record_abandoned_commit[_with_parents], set_rewritten_commit,
+    set_divergent_rewrite) with existing ids: i.e. whenever rebase_descendants is called for the
+    first time. *)
+Theorem C11_reachable_states_invariant : forall s, reach_pre s -> J s.
+Proof. exact reach_pre_J. Qed.
+
 (** Cycles are detected: whenever resolve_rewrite_mapping returns a mapping (instead of the
     "Cycle between rewritten commits" error), the selected records are acyclic: there is a rank
     that strictly decreases from every key to each of its replacements. *)
@@ -307,6 +315,7 @@ Print Assumptions C11_order_valid.
 Print Assumptions C11_no_orphans_rebase_descendants.
 Print Assumptions C11_no_orphans_in_domain.
 Print Assumptions C11_cycle_detected.
+Print Assumptions C11_reachable_states_invariant.
 Print Assumptions C11_identity_kept.
 Print Assumptions C11_bookmarks_follow.
 Print Assumptions C11_wc_follows.
